@@ -57,4 +57,24 @@ ExpectSetPayload(p, d) ==
 ExpectSetPayloadFn(p, d) ==
   LET k == Min(Len(d), PacketSize - HeaderLen(p)) IN
   [pkt |-> SubSeq(p, 1, HeaderLen(p)) \o SubSeq(d, 1, k) \o SubSeq(p, HeaderLen(p) + k + 1, PacketSize), n |-> k]
+
+(***************************************************************************)
+(* SetAdaptationFieldControl (spec growth, not one of the given            *)
+(* properties; modelled as the library has it and named as such):          *)
+(*  - the two control bits take the new value;                             *)
+(*  - a packet that gains an adaptation field gets a blank one that fills  *)
+(*    the packet (length 183, no flags, 0xFF stuffing) - its previous      *)
+(*    payload bytes are overwritten;                                       *)
+(*  - with value 11 a field of length 183 that still has stuffing is       *)
+(*    shortened to 182 so that one payload byte exists; a completely full  *)
+(*    field cannot shrink: error (the control bits stay changed).          *)
+(***************************************************************************)
+ExpectSetAfc(p, v) ==
+  LET q   == Set("afc", p, v)
+      q1  == IF ~HasAF(p) /\ v \in {2, 3} THEN SubSeq(q, 1, 4) \o Ser(Blank(183)) ELSE q IN
+  IF v = 3 /\ q1[5] = 183 THEN
+       IF Canonical(AfBytes(q1)) /\ Content(AfOf(q1)) < 183
+       THEN [pkt |-> SubSeq(q1, 1, 4) \o Ser([AfOf(q1) EXCEPT !.len = 182]) \o <<255>>, err |-> FALSE]
+       ELSE [pkt |-> q1, err |-> TRUE]
+  ELSE [pkt |-> q1, err |-> FALSE]
 =============================================================================
